@@ -11,6 +11,7 @@ import math
 import numpy as np
 
 from ..core import import_library
+from ..env import ENVIRONMENTS, excusable, hostile
 from ..probe import Probe, Reach, ResultKeeper, check_unmutated, snapshot_arrays
 from ..ref import norms as R
 
@@ -81,6 +82,13 @@ class NormMonitor:
         if Rr.shape != shape:
             ctx.violation(f"{name}: result shape differs from broadcast shape", {"norm": name, "a_shape": A.shape, "b_shape": B.shape}, shape, Rr.shape)
             return
+        ft = np.dtype(self.fl.settings.float_type)
+        narrow = ft != np.dtype(np.float64)
+        if narrow:
+            # the library works in its configured float type: the operands are what they become there, and the formula is
+            # judged at that type's precision (laws over the recorded table are left to the float64 runs)
+            A, B = A.astype(ft).astype(float), B.astype(ft).astype(float)
+            ctx.hit(f"float_type:{ft.name}")
         Ab, Bb = np.broadcast_to(A, shape).ravel(), np.broadcast_to(B, shape).ravel()
         Rf = Rr.astype(float).ravel()
         n = Ab.size
@@ -96,9 +104,25 @@ class NormMonitor:
             ctx.hit("elements_not_judged", n - len(idx))
         ref = R.REF[name]
         exact = name in R.EXACT
-        tab = self.table[name] if self.table is not None else None
+        tab = self.table[name] if (self.table is not None and not narrow) else None
         for i in idx:
             x, y, r = float(Ab[i]), float(Bb[i]), float(Rf[i])
+            if narrow:
+                if not (0.0 <= x <= 1.0 and 0.0 <= y <= 1.0):
+                    continue
+                ctx.evaluated()
+                e = ref(x, y)
+                eps = float(np.finfo(ft).eps)
+                tol = 32 * eps + (8 * eps / max(1.0 - x * y, eps) if name == "HamacherSum" else 0.0)
+                piece, dist = R.branch(name, x, y)
+                if not near(r, e, tol):
+                    if piece and 0 < dist <= 64 * eps and not name.startswith("Drastic"):
+                        ctx.hit("ambiguous:next to a branch point")
+                    else:
+                        ctx.violation(f"{name}: value differs from the documented formula", {"norm": name, "a": x, "b": y, "float_type": ft.name}, e, r)
+                elif name != "UnboundedSum" and not (-4 * eps <= r <= 1.0 + 4 * eps):
+                    ctx.violation(f"{name}: result outside [0,1]", {"norm": name, "a": x, "b": y, "float_type": ft.name}, "[0,1]", r)
+                continue
             if not (0.0 <= x <= 1.0 and 0.0 <= y <= 1.0):
                 ctx.hit("out_of_domain:operand outside [0,1]")
                 continue
@@ -208,6 +232,7 @@ def run(ctx):
     ]
     grid = np.array([k / 2**m for k in range(2**m + 1)])
     funcs = {f"{n}.compute": getattr(fl, n).compute for n in R.REF}
+    ctx.excuse = lambda mechanism, observed, note: excusable(observed)
     with Reach(funcs) as reach, Probe() as probe:
         mon = NormMonitor(ctx, fl)
         mon.install(probe)
@@ -349,11 +374,52 @@ def run(ctx):
                     if not np.array_equal(np.asarray(r1), keep, equal_nan=True):
                         ctx.violation(f"{name}: a returned result changes when an operand array is later modified (aliases its operand)", {"norm": name}, keep, r1)
                 norm.compute(a, b)
+                # a batch combined with a single value, in particular the identity and the annihilator (where the result equals an
+                # operand in value): the result is still a new array, whatever is done to the operand afterwards
+                for single in (1.0, 0.0, np.float64(1.0), np.array(1.0), np.array(0.0), 0.5, 1, 0):
+                    for batch_first in (False, True):
+                        a[:] = specials(rnd, 16)
+                        r1 = norm.compute(a, single) if batch_first else norm.compute(single, a)
+                        keep = np.array(r1, copy=True)
+                        a[:] = specials(rnd, 16)
+                        ctx.hit("event:batch combined with a single value, then refilled")
+                        if not np.array_equal(np.asarray(r1), keep, equal_nan=True):
+                            ctx.violation(f"{name}: a returned result changes when an operand array is later modified (aliases its operand)", {"norm": name, "single": single, "batch_first": batch_first}, keep, r1)
+        # the library under another floating-point type: the formulas, the range and the special pairs hold at that precision
+        for i, rnd in ctx.cases("float-types", len(names) * ctx.scale(2, 20)):
+            with ctx.guarded():
+                name = names[i % len(names)]
+                for ftype in ("float32", "float16"):
+                    with hostile(fl, ftype, ctx):
+                        norm = getattr(fl, name)()
+                        a, b = np.array(specials(rnd, 40)), np.array(specials(rnd, 40))
+                        a[:6], b[:6] = [0.0, 0.0, 1.0, 1.0, 0.5, 0.25], [0.0, 1.0, 0.0, 1.0, 0.5, 0.75]
+                        norm.compute(a, b)
+                        norm.compute(a[:12].reshape(3, 4), b[:12].reshape(3, 4))
+                        norm.compute(a[:, None][:8], b[None, :8])
+                        for x, y in zip(a[:8], b[:8]):
+                            norm.compute(float(x), float(y))
+                        norm.compute(np.zeros(3), np.zeros(3))
+                        norm.compute(np.ones(3), np.ones(3))
+                        norm.compute(0.0, np.zeros(2))
+        # the process in another state: warnings are errors, the library logs at DEBUG, other NumPy print options
+        for i, rnd in ctx.cases("environments", len(names) * len(ENVIRONMENTS)):
+            with ctx.guarded():
+                name, envname = names[i % len(names)], ENVIRONMENTS[i // len(names)]
+                a, b = np.array(specials(rnd, 40) + [0.0, 0.0, 1.0, 1.0]), np.array(specials(rnd, 40) + [0.0, 1.0, 0.0, 1.0])
+                with hostile(fl, envname, ctx):
+                    norm = getattr(fl, name)()
+                    norm.compute(a, b)
+                    norm.compute(a[:, None][:6], b[None, :6])
+                    norm.compute(extremes[:, None], extremes[None, :])
+                    for x, y in zip(a[-8:], b[-8:]):
+                        norm.compute(float(x), float(y))
         mon.check_laws()
         probe.report(ctx)
         reach.report(ctx)
     ctx.exhaustive = True
     ctx.extra["exhaustive_space"] = f"all pairs and triples of the dyadic grid k/2^{m} per norm (plus non-exhaustive random doubles)"
+    ctx.require("float_type:float32", "float_type:float16", "event:batch combined with a single value, then refilled", *[f"environment:{e}" for e in ENVIRONMENTS])
     ctx.require("workload:large batch", "law:results of earlier calls left alone", "workload:pairs of extreme magnitudes", "operand form:transposed", "operand form:0-d with batch", "operand form:read-only row broadcast over a batch")
     for name in R.REF:
         ctx.require(f"hook:{name}.compute")
